@@ -33,12 +33,10 @@ def spec(tier, seed):
     # LEFT$, RIGHT$, UCASE$, LCASE$, LTRIM$, RTRIM$, SPACE$, STRING$: the body of run() sliced from the current source
     try:
         bifn.left_right(b, "vk_c17", 1, (0, 1, 2), "quick")
-        bifn.left_right(b, "vk_c17", 2, (0,), "quick", only=("left",))
-        bifn.left_right(b, "vk_c17", 2, (0, 1, 2, 3), "quick", only=("right",))
-        bifn.left_right(b, "vk_c17", 3, (0,), "quick")
-        # String::push of a symbolic char: CBMC runs out of memory (8 GB) for some of these - thorough, non-core
-        bifn.left_right(b, "vk_c17", 2, (1, 2, 3), "thorough", core=False, only=("left",))
-        bifn.left_right(b, "vk_c17", 3, (1, 2, 3, 4, 32767), "thorough", core=False)
+        bifn.left_right(b, "vk_c17", 2, (0, 1, 2, 3), "quick")
+        bifn.left_right(b, "vk_c17", 3, (0, 1, 2, 3, 4, 32767), "quick")
+        bifn.left_right(b, "vk_c17", 4, (0, 1, 3, 4, 5), "thorough")
+        bifn.left_right(b, "vk_c17", 5, (2, 5, 6), "thorough")
         bifn.left_right_negative(b, "vk_c17", "quick")
         for n in (0, 1, 2, 3, 4, 5):
             bifn.case_fns(b, "vk_c17", n, "quick" if n in (1, 3) else "thorough")
